@@ -676,10 +676,14 @@ impl JoinPlanner {
                 }
             }
 
-            // Build output schema (union of variables, shared vars once)
+            // Build output schema exactly as the join emits its rows (and as
+            // `IRBuilder::build_join` declares it): all columns of the left input, then the
+            // columns of the right input that are not join keys. De-duplicating by name
+            // instead would drop a column when a scan repeats a variable (`r(X, X, Y)`),
+            // leaving the schema shorter than the rows.
             let mut output_schema = current_schema.clone();
-            for var in &next_schema {
-                if !output_schema.contains(var) {
+            for (j, var) in next_schema.iter().enumerate() {
+                if !right_keys.contains(&j) {
                     output_schema.push(var.clone());
                 }
             }
